@@ -399,7 +399,13 @@ func c14Schema(r *mon.Rng) (*model.Schema, string) {
 	case 8:
 		// bare root scalars and empty containers, with and without annotation
 		var n *model.Node
-		switch r.Intn(8) {
+		switch r.Intn(10) {
+		case 8:
+			// \u escapes inside the strings of an annotation (the scanner reads them in its
+			// annotation mode; the text after the annotation must be read in the normal one again)
+			n = model.Str("b").With(model.RRaw("enum", `["a", "\u0062", "\u00e9\u0041"]`))
+		case 9:
+			n = model.Str("Axx").With(model.RRaw("regex", `"^\u0041x+$"`), model.RInt("minLength", 1))
 		case 0:
 			n = model.Int(gen.RandomInteger(r))
 		case 1:
